@@ -3,6 +3,7 @@ import Ptn.C13.Lemmas
 import Ptn.C13.Total
 import Ptn.C13.Scale
 import Ptn.C13.Symbols
+import Ptn.C13.CheckedSim
 /-! Property theorems for C13 (symbolic Gaussian elimination is an exact factorisation).  Only
 property theorems and non-vacuity examples live here; helper lemmas are in `Sum`, `Views`,
 `EntryLemmas`, `RowSteps`, `ColSteps`, `Lemmas`.
@@ -300,5 +301,184 @@ theorem sge_empty_symbol_counterexample :
 /-- A symbolic entry with coefficient `0` as pivot makes the code raise `ZeroDivisionError`. -/
 theorem sge_zero_coefficient_raises :
     gaussianElimination [[.sym 0 1], [.sym 1 1]] = .zeroDiv := by decide +kernel
+
+/-! ### the checked model: no list access of the run is ever out of range
+
+`Checked.lean` is a second port of the Python file in which every subscript, subscript assignment and `del`
+is an operation that answers `Err.index` (`IndexError`) when out of range, and exceptions abort the run as
+in Python.  The theorems below remove the caveat "accesses of the model are totalised with defaults":
+under exactly the index bounds its caller guarantees every checked primitive raises nothing and returns
+what the totalised primitive returns, and the whole checked run on a rectangular matrix with `≥ 1` row
+equals the totalised run, so every theorem above holds for the checked model. -/
+
+theorem row_swap_checked (s : St) (i j : Nat) (hL : Rect s.L s.A.length) (hi : i < s.A.length)
+    (hj : j < s.A.length) : s.rowSwapC i j = .ok (s.rowSwap i j) := rowSwapC_ok hL hi hj
+
+theorem col_swap_checked (s : St) (i j : Nat) (hA : Rect s.A s.R.length) (hi : i < s.R.length)
+    (hj : j < s.R.length) : s.colSwapC i j = .ok (s.colSwap i j) := colSwapC_ok hA hi hj
+
+/-- `row_add` with both rows in range on a well-shaped state (whatever the compatibility guard decides). -/
+theorem row_add_checked (n : Nat) (st : St) (t s : Nat) (f : Rat) (h : WS n st) (ht : t < st.A.length)
+    (hs : s < st.A.length) : st.rowAddC t s f = .ok (st.rowAdd t s f) :=
+  rowAddC_ok f h.Lrect h.Arect ht hs
+
+theorem col_add_checked (n : Nat) (st : St) (t s : Nat) (f : Rat) (h : WS n st) (ht : t < st.R.length)
+    (hs : s < st.R.length) : st.colAddC t s f = .ok (st.colAdd t s f) :=
+  colAddC_ok f h.Arect h.Rrect ht hs
+
+/-- `row_scale` / `col_scale` in range: the only exception is the `ZeroDivisionError` of `1/0`. -/
+theorem row_scale_checked (n : Nat) (st : St) (r : Nat) (f : Rat) (h : WS n st) (hr : r < st.A.length) :
+    st.rowScaleC r f = (match st.rowScale r f with | some s' => .ok s' | none => .error .zeroDiv) :=
+  rowScaleC_ok f h.Lrect hr
+
+theorem col_scale_checked (n : Nat) (st : St) (c : Nat) (f : Rat) (h : WS n st) (hc : c < st.R.length) :
+    st.colScaleC c f = (match st.colScale c f with | some s' => .ok s' | none => .error .zeroDiv) :=
+  colScaleC_ok f h.Arect hc
+
+/-- Deleting distinct in-range rows in descending order (as the code does after sorting). -/
+theorem delete_rows_checked (n : Nat) (s : St) (zs : List Nat) (h : WS n s) (hnd : zs.Nodup)
+    (hlt : ∀ z, z ∈ zs → z < s.A.length) : s.delRowsC (sortDesc zs) = .ok (s.delRows (sortDesc zs)) :=
+  delRowsC_ok _ _ (pairwise_sortDesc hnd) (fun z hz => hlt z (mem_sortDesc.mp hz)) h.Lrect
+
+theorem delete_cols_checked (n : Nat) (s : St) (zs : List Nat) (h : WS n s) (hnd : zs.Nodup)
+    (hlt : ∀ z, z ∈ zs → z < s.R.length) : s.delColsC (sortDesc zs) = .ok (s.delCols (sortDesc zs)) :=
+  delColsC_ok _ _ (pairwise_sortDesc hnd) (fun z hz => hlt z (mem_sortDesc.mp hz)) h.Arect
+
+/-- `are_parallel_col` with both columns in range of a rectangular matrix (`are_parallel_row` zips two
+    rows and cannot raise; it is shared by both models). -/
+theorem are_parallel_col_checked (A : EMat) (w c1 c2 : Nat) (hA : Rect A w) (h1 : c1 < w) (h2 : c2 < w) :
+    areParallelColC A c1 c2 = .ok (areParallelCol A c1 c2) := areParallelColC_ok hA h1 h2
+
+theorem deparallelize_rows_checked (n : Nat) (s : St) (h : WS n s) (hnes : NESM s.A) :
+    deparallelizeRowsC s = .ok (deparallelizeRows s) := deparallelizeRowsC_ok n s h hnes
+
+theorem deparallelize_cols_checked (n : Nat) (s : St) (h : WS n s) (hnes : NESM s.A) :
+    deparallelizeColsC s = .ok (deparallelizeCols s) := deparallelizeColsC_ok n s h hnes
+
+/-- `row_elimination` / `column_elimination` on a well-shaped state: the checked run stops with
+    `ZeroDivisionError` exactly when the totalised run ends with that flag (`res`), never with `IndexError`,
+    and its own fuel (`len(matrix)` passes) is never exhausted where the totalised one is not. -/
+theorem row_elimination_checked (n : Nat) (s : St) (h : WS n s) (hok : s.flag = .ok) :
+    rowEliminationC s = res (rowElimination s) := rowEliminationC_sim n s h hok
+
+theorem column_elimination_checked (n : Nat) (s : St) (h : WS n s) (hok : s.flag = .ok) :
+    columnEliminationC s = res (columnElimination s) := columnEliminationC_sim n s h hok
+
+/-- Non-vacuity: the checked primitives act on the example state (in range) … -/
+example : (exState.rowAddC 1 0 (-2)) = .ok (exState.rowAdd 1 0 (-2))
+    ∧ (exState.rowSwapC 0 1) = .ok (exState.rowSwap 0 1)
+    ∧ rowEliminationC exState = .ok (rowElimination exState) := by decide +kernel
+
+/-- … and report `IndexError` out of range, where the totalised primitives silently return the state. -/
+example : exState.rowAddC 2 0 1 = .error .index ∧ (exState.rowAdd 2 0 1).1.A = exState.A
+    ∧ exState.rowSwapC 0 2 = .error .index ∧ (exState.rowSwap 0 2).A = exState.A
+    ∧ exState.colAddC 0 2 1 = .error .index ∧ exState.delRowsC [1, 1] = .error .index := by
+  decide +kernel
+
+/-- **The checked run equals the totalised run** on every rectangular matrix with at least one row and no
+    empty symbol name (symbolic coefficients may be zero: then both report the `ZeroDivisionError`). -/
+theorem checked_eq_total (M : EMat) (n : Nat) (hpos : 0 < M.length) (hrect : Rect M n) (hnes : NESM M) :
+    gaussianEliminationC M = (gaussianElimination M).toC := by
+  unfold gaussianEliminationC gaussianElimination
+  rw [gaussStC_eq M n hpos hrect hnes]
+  generalize gaussSt M = s
+  obtain ⟨L, A, R, fl⟩ := s
+  cases fl <;> rfl
+
+/-- **No `IndexError`.**  On every matrix of the property's domain the checked model never reports
+    `IndexError` (nor a zero division, nor exhausted fuel): it returns a triple, the one the totalised
+    model returns. -/
+theorem sge_no_index_error (M : EMat) (n : Nat) (hpos : 0 < M.length) (hrect : Rect M n) (hnes : NESM M)
+    (hnz : NZM M) :
+    gaussianEliminationC M ≠ .indexError ∧
+    ∃ L A R, gaussianEliminationC M = .ok L A R ∧ gaussianElimination M = .ok L A R := by
+  obtain ⟨L, A, R, h⟩ := sge_total M n hpos hrect hnes hnz
+  have hc := checked_eq_total M n hpos hrect hnes
+  rw [h] at hc
+  exact ⟨by rw [hc]; simp [Outcome.toC], L, A, R, hc, h⟩
+
+/-- Without the hypothesis on the coefficients: still no `IndexError` (the only exception left is the
+    `ZeroDivisionError` of a pivot `(0, s)`). -/
+theorem sge_no_index_error_any_coefficients (M : EMat) (n : Nat) (hpos : 0 < M.length) (hrect : Rect M n)
+    (hnes : NESM M) : gaussianEliminationC M ≠ .indexError := by
+  rw [checked_eq_total M n hpos hrect hnes]
+  cases gaussianElimination M <;> simp [Outcome.toC]
+
+/-- **Exactness for the checked model** (headline restatement of `sge_exact` + `sge_total`): on in-domain
+    input the checked model returns a triple `(L, M', R)`, no access of the run was out of range, and
+    `L · eval ρ M' · R = eval ρ M` with compatible shapes, `M'` not larger than `M`. -/
+theorem sge_exact_checked (M : EMat) (n : Nat) (hpos : 0 < M.length) (hrect : Rect M n) (hnes : NESM M)
+    (hnz : NZM M) :
+    ∃ L A R, gaussianEliminationC M = .ok L A R ∧
+      L.length = M.length ∧ Rect L A.length ∧ Rect A R.length ∧ Rect R n ∧
+      0 < A.length ∧ A.length ≤ M.length ∧ R.length ≤ n ∧
+      (∀ (ρ : Nat → Rat) (i j : Nat), i < M.length → j < n →
+        sumN A.length (fun k => sumN R.length (fun l => gR L i k * gE ρ A k l * gR R l j)) = gE ρ M i j) ∧
+      ∀ ρ : Nat → Rat, matMul (matMul L (evalM ρ A) R.length) R n = evalM ρ M := by
+  obtain ⟨_, L, A, R, hc, h⟩ := sge_no_index_error M n hpos hrect hnes hnz
+  obtain ⟨⟨h1, h2, h3, h4⟩, ⟨h5, h6, h7⟩, hex⟩ := sge_exact M n hpos hrect hnes L A R h
+  exact ⟨L, A, R, hc, h1, h2, h3, h4, h5, h6, h7, hex,
+    fun ρ => sge_exact_matrix M n hpos hrect hnes L A R h ρ⟩
+
+/-- Exactness of whatever triple the checked model returns (no hypothesis on the coefficients). -/
+theorem sge_exact_checked_of_ok (M : EMat) (n : Nat) (hpos : 0 < M.length) (hrect : Rect M n)
+    (hnes : NESM M) (L : RMat) (A : EMat) (R : RMat) (h : gaussianEliminationC M = .ok L A R) :
+    gaussianElimination M = .ok L A R ∧
+    ∀ ρ : Nat → Rat, matMul (matMul L (evalM ρ A) R.length) R n = evalM ρ M := by
+  have hc := checked_eq_total M n hpos hrect hnes
+  rw [h] at hc
+  have ht : gaussianElimination M = .ok L A R := by
+    cases hg : gaussianElimination M with
+    | ok L' A' R' =>
+      rw [hg] at hc
+      simp only [Outcome.toC, OutcomeC.ok.injEq] at hc
+      obtain ⟨rfl, rfl, rfl⟩ := hc
+      rfl
+    | zeroDiv => rw [hg] at hc; simp [Outcome.toC] at hc
+    | fuelOut => rw [hg] at hc; simp [Outcome.toC] at hc
+  exact ⟨ht, fun ρ => sge_exact_matrix M n hpos hrect hnes L A R ht ρ⟩
+
+/-- Non-vacuity: the checked model on the examples of `sge_exact`, and the zero-coefficient pivot. -/
+example : gaussianEliminationC [[.num 1, .num 2], [.num 2, .num 4]]
+    = .ok [[1], [2]] [[.num 1]] [[1, 2]] := by decide +kernel
+
+example : gaussianEliminationC
+    [[.num 1, .sym 1 1, .num 0], [.num 2, .num 4, .sym 1 2], [.num 3, .sym 1 1, .sym 1 2]]
+    = .ok [[1, 0, 0], [0, 1, 0], [3, 0, 1]]
+        [[.num 1, .sym 1 1, .num 0], [.num 2, .num 4, .sym 1 2], [.num 0, .sym (-2) 1, .sym 1 2]]
+        [[1, 0, 0], [0, 1, 0], [0, 0, 1]] := by decide +kernel
+
+example : gaussianEliminationC [[.sym 0 1], [.sym 1 1]] = .zeroDiv := by decide +kernel
+
+/-! ### non-rectangular input (outside the domain): where the code raises `IndexError` -/
+
+/-- A ragged matrix on which the Python code raises `IndexError` (in `are_parallel_col`: `row[col2]` of the
+    short second row; replayed on the real code by the harness): the checked model reports it, while the
+    totalised model reads a default there and returns a triple. -/
+theorem ragged_index_error_witness :
+    gaussianEliminationC [[.num 1, .num 2], [.sym 1 1]] = .indexError ∧
+    gaussianElimination [[.num 1, .num 2], [.sym 1 1]]
+      = .ok [[1, 0], [0, 1]] [[.num 1, .num 0], [.sym 1 1]] [[1, 2], [0, 1]] ∧
+    ¬ ∃ n, Rect [[Entry.num 1, Entry.num 2], [Entry.sym 1 1]] n := by
+  refine ⟨by decide +kernel, by decide +kernel, ?_⟩
+  intro ⟨n, h⟩
+  have h1 := h [.num 1, .num 2] (by simp)
+  have h2 := h [.sym 1 1] (by simp)
+  simp at h1 h2
+  omega
+
+/-- The empty matrix: `len(matrix[0])` raises `IndexError`. -/
+theorem empty_matrix_index_error : gaussianEliminationC [] = .indexError := by decide +kernel
+
+/-- Later sources of `IndexError` on ragged input: the pivot `matrix[i][i]` of `row_elimination`
+    (short second row, `[[a, 1], [b]]` reaches `i = 1`), and `del row[col_0]` … -/
+theorem ragged_index_error_in_elimination :
+    gaussianEliminationC [[.sym 1 1, .num 1], [.sym 1 2]] = .indexError := by decide +kernel
+
+/-- Raggedness alone does not make the code raise: with a short FIRST row every access stays in range and a
+    ragged triple is returned (checked model and code agree, see the correspondence). -/
+theorem ragged_without_error_witness :
+    gaussianEliminationC [[.num 1], [.sym 1 1, .num 2]]
+      = .ok [[1, 0], [0, 1]] [[.num 1], [.sym 1 1, .num 2]] [[1]] := by decide +kernel
 
 end Ptn.C13
